@@ -6,16 +6,36 @@ import TlsModel.Gen.Registry
 import TlsModel.Registry
 namespace Tls
 
-/-- **every named constant has its IANA-assigned value** (and no constant is missing or extra) -/
-theorem impl_constants_eq_iana : Gen.constants = ianaTable := by decide +kernel
+/-- **every named constant has its IANA-assigned value**: every row of the reference registry is a constant of the
+    implementation with exactly that value and name … -/
+theorem impl_constants_cover_iana : ianaTable.all (fun r => Gen.constants.contains r) = true := by decide +kernel
+
+/-- … and no constant of the implementation contradicts the reference: one that shares its type and value, or its type and
+    name, with a reference row *is* that row. (A constant the reference does not know at all - a code point registered after
+    the reference was written - is not judged here; the check lists such constants in its notes.) -/
+theorem impl_constants_no_conflict :
+    Gen.constants.all (fun r => ianaTable.all (fun q =>
+      !(q.1 == r.1 && (q.2.1 == r.2.1 || q.2.2 == r.2.2)) || q == r)) = true := by decide +kernel
+
+/-- constants are listed once: strictly increasing in (type, value) -/
+theorem impl_constants_sorted :
+    (Gen.constants.zip (Gen.constants.drop 1)).all (fun p => p.1.1 < p.2.1 || (p.1.1 == p.2.1 && p.1.2.1 < p.2.2.1)) = true := by
+  decide +kernel
 
 theorem impl_record_limits : Gen.maxRecordLen = ianaMaxRecordLen ∧ Gen.maxRecordData = ianaMaxRecordData := by decide
 
-/-- **a value prints its constant's name iff one is defined**: over the whole domain of every registry type that
-    implements Display, the values whose string is not the numeric fallback are exactly the named constants,
-    with exactly their names -/
-theorem impl_names_eq_constants :
-    Gen.names = ianaTable.filter (fun r => displayTypes.contains r.1) := by decide +kernel
+/-- **a value prints its constant's name iff one is defined**: `Gen.names` lists, over the whole domain of every registry
+    type that implements Display, the values whose string is not the numeric fallback. Every constant of the reference
+    prints exactly its name … -/
+theorem impl_names_cover_constants :
+    (ianaTable.filter (fun r => displayTypes.contains r.1)).all (fun r => Gen.names.contains r) = true := by decide +kernel
+
+/-- … and every value that prints a name is either such a constant or a value / name the reference does not know at all
+    (a constant added after the reference was written: listed in the check's notes, not judged): no value prints the name
+    of another constant, no referenced value prints another name -/
+theorem impl_names_no_conflict :
+    Gen.names.all (fun r => ianaTable.all (fun q =>
+      !(q.1 == r.1 && (q.2.1 == r.2.1 || q.2.2 == r.2.2)) || q == r)) = true := by decide +kernel
 
 /-- Debug = Display for the `impl debug` types, on every value -/
 theorem impl_debug_eq_display : Gen.debugDiffers = 0 := by decide
@@ -23,9 +43,9 @@ theorem impl_debug_eq_display : Gen.debugDiffers = 0 := by decide
 /-- **key_bits is the field size for every curve whose name states one** -/
 theorem impl_keybits_named_sizes : curveBits.all (fun p => Gen.keyBits.contains p) = true := by decide +kernel
 
-/-- **and None for unregistered groups**: every group with Some(bits) is a registered NamedGroup constant (index 12) -/
+/-- **and None for unregistered groups**: every group with Some(bits) is a named NamedGroup constant of the implementation (index 12) -/
 theorem impl_keybits_only_registered :
-    Gen.keyBits.all (fun p => ianaTable.any (fun r => r.1 == 12 && r.2.1 == p.1)) = true := by decide +kernel
+    Gen.keyBits.all (fun p => Gen.constants.any (fun r => r.1 == 12 && r.2.1 == p.1)) = true := by decide +kernel
 
 /-- the model of Display over the reference table: the name for named values … -/
 theorem displayName_of_constant : ianaTable.all (fun r => displayName ianaTable r.1 r.2.1 == some r.2.2) = true := by
